@@ -378,6 +378,8 @@ def _gen_shape(rng, tier, auto):
         pairs = [(perm[i], perm[i + 1]) for i in range(n - 1)]
         if rng.random() < 0.5:
             pairs.append((perm[-1], perm[rng.randrange(n)]))
+        if n <= 140:
+            rng.shuffle(pairs)  # Bellman-Ford then needs many rounds
         src = perm[0]
         edges, approx = _weights(rng, n, pairs, rng.choice(["pos", "ties"]))
         t = perm[rng.randrange(n)]
